@@ -135,3 +135,21 @@ pub fn frs(v: &[Fx]) -> Vec<BigUint> {
 pub fn show(f: &Fr) -> String {
     fr_to_big(f).to_string()
 }
+
+/// graph files a caller may be left with after an interrupted download or a version mismatch
+pub fn damaged_graph(kind: u8) -> Vec<u8> {
+    let g = graph_bytes();
+    match kind % 4 {
+        0 => {
+            // header, "one node follows", an empty node record
+            let mut v = b"wtns.graph.001".to_vec();
+            v.extend_from_slice(&1u64.to_le_bytes());
+            v.extend_from_slice(&[0u8; 16]);
+            v
+        }
+        1 => g[..g.len() / 2].to_vec(),
+        2 => g[..g.len() - 3].to_vec(),
+        _ => g[..40].to_vec(),
+    }
+}
+
